@@ -141,9 +141,9 @@ Proof.
   - unfold owner_unload. destruct (is_owner lower n); [exact Hw|].
     destruct (get_callback lower (s_cbs s) n) as [old|]; [|exact Hw].
     unfold remove_callback. rewrite partition_filter.
-    assert (wf_st (St (filter (fun x => negb (name_is lower (cname old) x)) (s_cbs s)) (s_next s))).
+    assert (H : wf (s_next s) (filter (fun x => negb (name_is lower (cname old) x)) (s_cbs s))).
     { apply wf_filter. exact Hw. }
-    destruct (filter (name_is lower (cname old)) (s_cbs s)); [exact H|]. destruct dief; exact H.
+    destruct (filter (name_is lower (cname old)) (s_cbs s)); exact H.
   - unfold owner_reload. destruct (is_owner lower n); [exact Hw|].
     unfold remove_callback. rewrite partition_filter.
     set (bad := filter (name_is lower n) (s_cbs s)).
@@ -161,9 +161,8 @@ Proof.
       * rewrite <- Eb. apply Forall_forall. intros c Hc. apply filter_In in Hc as [Hc _].
         destruct Hw as [_ [_ H3]]. rewrite Forall_forall in H3. auto. }
     destruct (load_plugin_module lower world n imp).
-    + destruct dief; [exact Hg|].
-      pose proof (load_plugin_class_wf (St good (s_next s)) p initf o Hx Hg) as H.
-      destruct (load_plugin_class lower (St good (s_next s)) p initf o). exact H.
+    + pose proof (load_plugin_class_wf (St good (s_next s) (s_dead s ++ ids (b0 :: bt))) p initf o Hx Hg) as H.
+      destruct (load_plugin_class lower (St good (s_next s) (s_dead s ++ ids (b0 :: bt))) p initf o). exact H.
     + destruct (readd lower o good (b0 :: bt)) as [r res]. exact Hre.
     + destruct (readd lower o good (b0 :: bt)) as [r res]. exact Hre.
 Qed.
@@ -267,7 +266,7 @@ Proof.
     { unfold get_callback in Eg. apply find_some in Eg as [_ Eg]. unfold name_is in Eg.
       apply seq_eqb_eq in Eg. unfold is_owner in *. rewrite Eg. exact Eo. }
     pose proof (filter_owner (cname old) (s_cbs s) Hh Hold) as H.
-    destruct (filter (name_is lower (cname old)) (s_cbs s)); [exact H|]. destruct dief; exact H.
+    destruct (filter (name_is lower (cname old)) (s_cbs s)); exact H.
   - unfold owner_reload. destruct (is_owner lower n) eqn:Eo; [exact Hh|].
     unfold remove_callback. rewrite partition_filter.
     set (bad := filter (name_is lower n) (s_cbs s)).
@@ -286,9 +285,8 @@ Proof.
       * rewrite <- Eb. apply Forall_forall. intros c Hc. apply filter_In in Hc as [Hc _].
         destruct Hw as [_ [_ H3]]. rewrite Forall_forall in H3. auto. }
     destruct (load_plugin_module lower world n imp).
-    + destruct dief; [exact Hhg|].
-      pose proof (load_plugin_class_owner (St good (s_next s)) p initf o Hx Hg Hhg) as H.
-      destruct (load_plugin_class lower (St good (s_next s)) p initf o). exact H.
+    + pose proof (load_plugin_class_owner (St good (s_next s) (s_dead s ++ ids (b0 :: bt))) p initf o Hx Hg Hhg) as H.
+      destruct (load_plugin_class lower (St good (s_next s) (s_dead s ++ ids (b0 :: bt))) p initf o). exact H.
     + destruct (readd lower o good (b0 :: bt)) as [r res]. exact Hre.
     + destruct (readd lower o good (b0 :: bt)) as [r res]. exact Hre.
 Qed.
